@@ -1703,6 +1703,44 @@ theorem former_admin_locked_out (namer : Nat → Addr) (s : DState) (m : DMsg) (
   exact denom_history_owner_only namer m.denom b ops _ h
     (fun e => by rw [dDeliver_grants]; exact hg e) hops
 
+/-- **existing_denom_never_recreated.** A creating message (`MsgCreateDenom`, or the binding `create_denom` with or
+without metadata) for a denom that EXISTS changes nothing at all — whoever sends it (the account in the name included),
+whoever the admin is now (somebody else, or nobody), and whatever the supply / bridge bindings / metadata record are
+(`writes`, `dmeta` are not looked at: a supply of zero does not make an existing denom creatable again). -/
+theorem existing_denom_never_recreated (namer : Nat → Addr) (s : DState) (m : DMsg)
+    (hact : m.act = .create ∨ ∃ b, m.act = .createMeta b) (hex : s.den m.denom ≠ none) :
+    dAccepted namer s m = false ∧ dDeliver namer s m = s := by
+  have hnone : dHandle namer s m = none := by
+    unfold dHandle
+    rcases hact with h | ⟨b, h⟩ <;> simp [h, hex]
+  constructor
+  · simp [dAccepted, hnone]
+  · unfold dDeliver
+    simp only [hnone]
+    split <;> rfl
+
+/-- **handed_over_denom_not_taken_back_by_creation.** After an accepted hand-over to `b` the account the denom is named
+after (or anybody else) cannot get it back by creating it again: every creating message for it is refused and leaves the
+state as it is — for every state the hand-over started from. -/
+theorem handed_over_denom_not_taken_back_by_creation (namer : Nat → Addr) (s : DState) (m c : DMsg) (b : Option Addr)
+    (hact : m.act = .changeAdmin b) (hacc : dAccepted namer s m = true)
+    (hc : c.act = .create ∨ ∃ x, c.act = .createMeta x) (hd : c.denom = m.denom) :
+    dAccepted namer (dDeliver namer s m) c = false ∧ dDeliver namer (dDeliver namer s m) c = dDeliver namer s m := by
+  apply existing_denom_never_recreated namer _ c hc
+  have hante : dAnteOk m s.grants = true := by
+    unfold dAccepted at hacc
+    cases h : dAnteOk m s.grants <;> simp [h] at hacc ⊢
+  have hsome : (dHandle namer s m).isSome = true := by
+    unfold dAccepted at hacc
+    cases h : (dHandle namer s m).isSome <;> simp [h] at hacc ⊢
+  unfold dDeliver
+  simp only [hante]
+  unfold dHandle at hsome ⊢
+  simp only [hact] at hsome ⊢
+  by_cases hcr : s.den m.denom = some (some m.creator)
+  · simp [hcr, hd, setAt]
+  · simp [hcr] at hsome
+
 /-- Clause "a transaction authorised by account A never adds, alters or removes anything
 attributed to a different principal B" for a message whose OWN FIELDS may disagree (the wasm
 bindings `set_metadata` / `create_denom` carry a `denom`, whose admin is compared with the calling
@@ -2472,6 +2510,85 @@ example : let m : Msg := { typ := "tokenfactory.ChangeAdmin", signers := [7], cr
     anteOkTopBounded [wrapN 7 m 6] (fun _ _ => false) = true ∧ anteOkTopBounded [wrapN 7 m 7] (fun _ _ => false) = false := by decide
 
 
+/-! ### several messages in one wrapper; sequences of dispatches -/
+
+theorem scopeList_append (a b : List Top) : scopeList (a ++ b) = scopeList a ++ scopeList b := by
+  induction a with
+  | nil => simp [scopeList]
+  | cons t ts ih => simp [scopeList, ih]
+
+/-- **one_foreign_message_refuses_the_dispatch.** Position does not matter: if ANY message a contract's `MsgExec` brings
+along — first, in the middle or last among messages of the contract's own, itself wrapped or not — names somebody else as
+creator, the whole dispatch is refused (and authz, which would run every inner message on the grantee's word, runs none). -/
+theorem one_foreign_message_refuses_the_dispatch (c g : Addr) (pre post : List Top) (t : Top) (m : Msg)
+    (hm : m ∈ t.scope) (hf : m.creator ≠ c) : wasmDispatchTop c (.exec g (pre ++ t :: post)) = false := by
+  cases h : wasmDispatchTop c (.exec g (pre ++ t :: post)) with
+  | false => rfl
+  | true =>
+    have := contract_dispatch_nested_acts_only_for_itself c _ h m
+      (by simp [Top.scope, scopeList_append, scopeList, hm])
+    exact absurd this hf
+
+/-- the same however many more wrappers surround the list -/
+theorem wrapTop_scope (g : Addr) (t : Top) (k : Nat) : (wrapTop g t k).scope = t.scope := by
+  induction k with
+  | zero => simp [wrapTop]
+  | succ n ih => simp [wrapTop, Top.scope, scopeList, ih]
+
+theorem one_foreign_message_refuses_the_wrapped_dispatch (c g : Addr) (pre post : List Top) (t : Top) (m : Msg) (k : Nat)
+    (hm : m ∈ t.scope) (hf : m.creator ≠ c) :
+    wasmDispatchTopBounded c (wrapTop g (.exec g (pre ++ t :: post)) k) = false := by
+  have h := one_foreign_message_refuses_the_dispatch c g pre post t m hm hf
+  simp only [wasmDispatchTop] at h
+  simp [wasmDispatchTopBounded, wasmDispatchTop, wrapTop_scope, h]
+
+/-- **one_unauthorised_message_refuses_the_transaction.** The same for a transaction: a `MsgExec` holding, anywhere in
+its list, a message whose creator neither is among its signers nor granted one of them an allowance is refused by the
+decorator, whatever else the list holds (e.g. messages of a granter before it). -/
+theorem one_unauthorised_message_refuses_the_transaction (g : Addr) (pre post : List Top) (t : Top) (m : Msg)
+    (grants : Addr → Addr → Bool) (hm : m ∈ t.scope) (hf : anteOk m grants = false) :
+    anteOkTopBounded [.exec g (pre ++ t :: post)] grants = false := by
+  cases h : anteOkTopBounded [.exec g (pre ++ t :: post)] grants with
+  | false => rfl
+  | true =>
+    have := bounded_pass_checks_every_message _ grants h m
+      (by simp [scopeList, Top.scope, scopeList_append, hm])
+    rw [hf] at this
+    cases this
+
+/-- **dispatch_verdict_has_no_memory.** The gate's verdict on a dispatch is the same whatever was dispatched through the
+same router before it (honest `MsgExec`s of the same type, refused ones, anything): position `before.length` of the run
+is the verdict on `t` alone.  Likewise for the decorator over a sequence of transactions. -/
+theorem dispatch_verdict_has_no_memory (c : Addr) (before after : List Top) (t : Top) :
+    (wasmRouterRun c (before ++ t :: after))[before.length]? = some (wasmDispatchTopBounded c t) := by
+  simp [wasmRouterRun]
+
+theorem ante_verdict_has_no_memory (before after : List (List Top × (Addr → Addr → Bool))) (tops : List Top)
+    (grants : Addr → Addr → Bool) :
+    (anteRun (before ++ (tops, grants) :: after))[before.length]? = some (anteOkTopBounded tops grants) := by
+  simp [anteRun]
+
+/-- **every_accepted_dispatch_of_a_run_is_the_contracts_own.** Over any sequence of dispatches through one router: whenever
+the k-th is let through, every message it brings along names the contract as creator. -/
+theorem every_accepted_dispatch_of_a_run_is_the_contracts_own (c : Addr) (ts : List Top) (k : Nat) (t : Top)
+    (ht : ts[k]? = some t) (hpass : (wasmRouterRun c ts)[k]? = some true) : ∀ m ∈ t.scope, m.creator = c := by
+  simp only [wasmRouterRun, List.getElem?_map, ht, Option.map_some, Option.some.injEq] at hpass
+  simp only [wasmDispatchTopBounded, Bool.and_eq_true] at hpass
+  exact contract_dispatch_nested_acts_only_for_itself c t hpass.2
+
+/-- non-vacuity: own messages pass in a list; a foreign one first / middle / last refuses it; after two honest
+dispatches the forged one is still refused -/
+example : let own : Msg := { typ := "tokenfactory.CreateDenom", signers := [7], creator := 7, field := fun _ => none }
+    let foreign : Msg := { typ := "tokenfactory.Burn", signers := [7], creator := 2, field := fun _ => none }
+    wasmDispatchTopBounded 7 (.exec 7 [.plain own, .plain own, .plain own]) = true ∧
+    wasmDispatchTopBounded 7 (.exec 7 [.plain foreign, .plain own, .plain own]) = false ∧
+    wasmDispatchTopBounded 7 (.exec 7 [.plain own, .plain foreign, .plain own]) = false ∧
+    wasmDispatchTopBounded 7 (.exec 7 [.plain own, .plain own, .plain foreign]) = false ∧
+    wasmRouterRun 7 [.exec 7 [.plain own], .exec 7 [.plain own, .plain own], .exec 7 [.plain foreign, .plain own]]
+      = [true, true, false] ∧
+    anteOkTopBounded [.exec 7 [.plain foreign, .plain own]] (fun _ _ => false) = false ∧
+    anteOkTopBounded [.exec 7 [.plain foreign, .plain own]] (fun a b => a == 2 && b == 7) = true := by decide
+
 section Examples
 
 /-- the real handler table; governance authority 99, light-node feegranter 50; validator 7
@@ -2709,6 +2826,12 @@ example : (lRun 13 (lInit [10, 13]) exL).client 33 = none ∧ (lRun 13 (lInit [1
 example : (lRun 13 (lInit [10, 13]) (exL ++ [.msg 4 ⟨[10], 31, .auth⟩])).client 31 = some ⟨1, 2⟩ := by decide
 example : (lRun 13 (lInit [10, 13]) (exL ++ [.grant 31 10, .msg 4 ⟨[10], 31, .auth⟩])).client 31 = some ⟨1, 4⟩ := by decide
 example : (lRun 13 (lInit [10, 13]) (exL ++ [.msg 4 ⟨[10], 10, .addLicence 32⟩])).licence 32 = false := by decide
+
+-- re-creation after a hand-over, with no admin-gated write ever made (supply zero): refused, admin stays 22
+example : dView (dRun exNamer dInit [exD 10 10 .create, exD 10 10 (.changeAdmin (some 22)), exD 10 10 .create]) 1
+    = (some (some 22), 0) := by decide
+example : dAccepted exNamer (dRun exNamer dInit [exD 10 10 .create, exD 10 10 (.changeAdmin (some 22))]) ⟨[10], 10, 1, .create⟩ = false := by
+  decide
 
 end Examples
 
